@@ -119,11 +119,31 @@ def rule_I5(ctx):
     ctx.ob("I5", loop, "the per-slot handler catches ConstructError (unused slot: index -1 fails the reference parse)", "ConstructError" in names, f"{sorted(names)}", inst="partial:exceptions")
 
 
+def rule_I10(ctx):
+    """truncation (C15): the AKAI file-table scan reads its stream only where a failed read is turned into a skipped / final entry"""
+    fe = ctx.fn(AK + "file_entry.py", "FileEntriesAdapter._parse", "I10")
+    PARSE = ("self.subcon.parse_stream", "self.subcon.parse")
+    loops = [l_ for l_ in own_nodes(fe) if isinstance(l_, (ast.For, ast.While)) and any(isinstance(c, ast.Call) and norm(c.func) in PARSE for c in ast.walk(l_))]
+    if len(loops) != 1:
+        raise AnalysisError("I10", where(fe), f"entry loop not found ({len(loops)} candidates)")
+    loop = loops[0]
+    # the table stream is only read where a failure is turned into a skipped entry: through construct's stream parsing (which reports a
+    # failed read as a ConstructError) or inside a try that handles the sector layer's own errors
+    tstream = fe.args.args[1].arg
+    raw = [c for c in ast.walk(loop) if isinstance(c, ast.Call) and isinstance(c.func, ast.Attribute) and c.func.attr in ("read", "readall", "readinto", "readline", "readlines")
+           and norm(c.func.value) == tstream]
+    bad_raw = [c for c in raw if find_try_handler(c, loop, {"SectorReadError", "Exception", "OSError", "IOError", "BaseException", "<bare>"}) is None]
+    ctx.ob("I10", bad_raw[0] if bad_raw else loop, "AKAI file table: a read failure on the table stream ends or skips the entry, it never escapes the scan", not bad_raw,
+           "" if not bad_raw else f"`{norm(bad_raw[0])}` reads the table stream directly, outside any handler for a failed sector read: on a truncated image the error "
+           "aborts the whole directory", inst="akai-table:raw-read")
+
+
 def rule_I1(ctx):
     """a swallowed parse error of one record does not change where / whether the other records are read"""
     # (a) AKAI file table
     fe = ctx.fn(AK + "file_entry.py", "FileEntriesAdapter._parse", "I1")
-    ps = [c for c in own_nodes(fe) if isinstance(c, ast.Call) and norm(c.func) == "self.subcon.parse_stream"]
+    PARSE = ("self.subcon.parse_stream", "self.subcon.parse")
+    ps = [c for c in own_nodes(fe) if isinstance(c, ast.Call) and norm(c.func) in PARSE]
     loop = None
     if ps:
         t = ps[0]
@@ -134,9 +154,11 @@ def rule_I1(ctx):
                 break
     if loop is None:
         raise AnalysisError("I1", where(fe), "entry loop not found")
-    ps = [c for c in ast.walk(loop) if isinstance(c, ast.Call) and norm(c.func) == "self.subcon.parse_stream"]
+    ps = [c for c in ast.walk(loop) if isinstance(c, ast.Call) and norm(c.func) in PARSE]
     ok = len(ps) == 1
     ctx.ob("I1", loop, "AKAI file table: one entry is parsed per iteration", ok, "", inst="akai-table:one-parse")
+    tstream = fe.args.args[1].arg
+    parsed_bytes = ok and norm(ps[0].func) == "self.subcon.parse"
     if ok:
         h = find_try_handler(ps[0], loop, {"ConstructError"})
         names = set(handler_names(h)) if h is not None else set()
@@ -146,7 +168,15 @@ def rule_I1(ctx):
             seeks = [c for st in h.body for c in ast.walk(st) if isinstance(c, ast.Call) and norm(c.func) == "stream.seek"]
             ok = len(seeks) == 1 and len(seeks[0].args) == 2 and norm(seeks[0].args[1]) in ("SEEK_SET", "0")
             det = "the handler does not re-position the table stream: every following entry is read at the wrong offset"
-            if ok:
+            if parsed_bytes and not seeks:
+                # the entry was taken off the stream as one block of the entry's size before it was parsed: the stream is already at
+                # the next entry whatever the parse does
+                src_ = ps[0].args[0] if ps[0].args else None
+                defs_ = [a for a in ast.walk(loop) if isinstance(a, ast.Assign) and isinstance(src_, ast.Name) and norm(a.targets[0]) == src_.id]
+                tes = [a for a in own_nodes(fe) if isinstance(a, ast.Assign) and norm(a.targets[0]) == "table_entry_size"]
+                ok = len(defs_) == 1 and norm(defs_[0].value) == f"{tstream}.read(table_entry_size)" and len(tes) == 1 and norm(tes[0].value) == "self.subcon.sizeof()"
+                det = "" if ok else "the entry bytes are not one read of the entry size"
+            elif ok:
                 saved = [a for a in ast.walk(loop) if isinstance(a, ast.Assign) and norm(a.value) == "stream.tell()" and a.lineno < ps[0].lineno]
                 if len(saved) > 1:
                     # several positions are remembered (an end-of-table peek restores its own): the entry start is the last one taken
